@@ -312,7 +312,10 @@ def real_child_case(rng, res):
 
 
 LIMIT_CHILD = r"""
-import sys, time
+import sys, time, signal
+if len(sys.argv) > 3 and sys.argv[3] == 'ignore':
+    for s_ in (signal.SIGTERM, signal.SIGINT, signal.SIGHUP, signal.SIGQUIT):
+        signal.signal(s_, signal.SIG_IGN)
 sys.stdout.write('started\n'); sys.stdout.flush()
 time.sleep(float(sys.argv[1]))
 open(sys.argv[2], 'w').write('ran to its end')
@@ -327,8 +330,10 @@ def limit_case(rng, res):
     timed out; the model gives the same verdict for the schedule 'alive at the first poll, done after `dur` seconds'."""
     import in_toto.runlib as rl
     import time
-    limit, dur = rng.choice([(0, 0.6), (0.0, 0.6), (0, 0.6), (0.2, 2.5), (20, 0.1)])      # (wide margins: the machine may be busy)
+    limit, dur = rng.choice([(0, 0.6), (0.0, 0.6), (0, 0.6), (0.2, 2.5), (0.2, 2.5), (20, 0.1)])      # (wide margins: the machine may be busy)
     streams = rng.random() < 0.5
+    # a command that ignores every signal a process can ignore: it must be *killed* at the limit, not asked to stop
+    ignore = limit == 0.2 and rng.random() < 0.7
     tmp = tempfile.mkdtemp(prefix="verif-c13l-")
     marker = os.path.join(tmp, "marker")
     old_tmp, cwd = tempfile.tempdir, os.getcwd()
@@ -337,7 +342,8 @@ def limit_case(rng, res):
         os.chdir(tmp)
         with contextlib.redirect_stdout(io.StringIO()), contextlib.redirect_stderr(io.StringIO()):
             try:
-                md = rl.in_toto_run("limit", [], [], [sys.executable, "-c", LIMIT_CHILD, str(dur), marker],
+                t_call = time.time()
+                md = rl.in_toto_run("limit", [], [], [sys.executable, "-c", LIMIT_CHILD, str(dur), marker] + (["ignore"] if ignore else []),
                                     record_streams=streams, timeout=limit)
                 bp = md.get_payload().byproducts
                 i = {"returned": [str(bp.get("return-value")), bp.get("stdout"), bp.get("stderr")]}
@@ -345,7 +351,8 @@ def limit_case(rng, res):
                 i = {"outcome": "TimeoutExpired"}
             except Exception as e:  # pylint: disable=broad-except
                 i = {"outcome": type(e).__name__}
-        time.sleep(dur + 0.4 if "outcome" in i else 0)
+        elapsed = time.time() - t_call
+        time.sleep(max(0.0, dur + 0.4 - elapsed) if "outcome" in i else 0)
         ran_to_end = os.path.exists(marker)
         leftover = sorted(os.listdir(tempfile.tempdir))
     finally:
@@ -361,7 +368,10 @@ def limit_case(rng, res):
     if not streams and "returned" in m:
         m = {"returned": [m["returned"][0], "", ""]}
     agreed = i == m
-    case = {"op": "limit", "limit": limit, "runs_for": dur, "record_streams": streams}
+    case = {"op": "limit", "limit": limit, "runs_for": dur, "record_streams": streams, "ignores_signals": ignore}
+    if limit < dur and i.get("outcome") == "TimeoutExpired" and elapsed > limit + 0.7 * (dur - limit):
+        res.fail("oracle", case, {"why": "the call came back %.1f s after the start although the limit was %r s: the command was not killed "
+                                         "at the limit, it was waited for" % (elapsed, limit), "impl": summarise(i)})
     res.case({"family": "limit", "limit": repr(limit), "runs_for": dur, "streams": streams, "impl": summarise(i)}, True, agreed, sample_cap=2)
     res.count("family_limit_%r" % (limit,))
     if not agreed:
